@@ -5,7 +5,7 @@
    layout (validated against `git index-pack` on every case of the suite). *)
 From Coq Require Import List NArith ZArith Bool String Sorting.Permutation.
 From GoGit Require Import Base.Out Model.PackBytes Model.Idx Model.PackParse Spec.IdxFormat
-  Proofs.C10Order Proofs.C10Layout Proofs.C10Main Proofs.C09 Proofs.C08.
+  Proofs.C10Order Proofs.C10Layout Proofs.C10Main Proofs.C09 Proofs.C08 Proofs.C08Unique.
 Import ListNotations.
 Local Open Scope N_scope.
 
@@ -31,6 +31,24 @@ Theorem C08_resolution_complete : forall hs Hsz ext es s,
   forall e, In e es -> exists o, In o (p_oi s) /\ r_off o = oh_off e.
 Proof. exact resolve_complete. Qed.
 Print Assumptions C08_resolution_complete.
+
+(* C08_resolution_unique: the relation is a function of the pack — the offsets the scanner
+   announces are distinct, and if the store files objects under their own ids and no two objects of
+   this pack and store share an id ([no_collision], the assumption every git implementation makes),
+   an offset resolves to at most one (type, content).  With sound + complete: the announced objects
+   are THE resolution of the pack, in whatever order the walk produced them. *)
+Theorem C08_resolution_unique : forall hs Hsz inflate crc32 ext pack es sum,
+  scan_pack hs Hsz inflate crc32 pack = Some (es, sum) ->
+  NoDup (map oh_off es) /\
+  (store_ok hs Hsz ext -> no_collision hs Hsz es ext ->
+   forall off t c t' c', Resolves hs Hsz es ext off t c -> Resolves hs Hsz es ext off t' c' -> t = t' /\ c = c').
+Proof.
+  intros hs Hsz inflate crc32 ext pack es sum E.
+  pose proof (scan_pack_offsets hs Hsz inflate crc32 pack es sum E) as Hnd.
+  split; [exact Hnd|]. intros Hst Hnc off t c t' c' R R'.
+  exact (resolves_functional hs Hsz es ext Hnd Hst Hnc off t c R t' c' R').
+Qed.
+Print Assumptions C08_resolution_unique.
 
 (* C08_idx_is_git: for every list of (id, offset, crc) the observer receives (ids of the format's
    size, 64-bit offsets, 32-bit CRCs, fewer than 2^31 objects), Writer.createIndex + Encode write
